@@ -30,7 +30,7 @@ LEVEL_NOTE = (
 TECHNIQUE = "deterministic simulation: event log as ground truth, conservation of evaluation counters across stop/restart chains"
 DESIGN_REF = "DESIGN.md 4.3"
 BUDGET = {
-    "quick": {"plans": 15000, "wall": 90, "chunk": 8},
+    "quick": {"plans": 30000, "wall": 90, "chunk": 8},
     "thorough": {"plans": 120000, "wall": 900, "chunk": 16},
 }
 RULE = (
@@ -54,6 +54,16 @@ def gen(rng, tier, index):
         spec["box"] = "boxed"
     cfg["maxiter"] = int(rng.integers(1, 14))
     maybe_long(rng, spec, cfg)
+    if rng.random() < 0.4:
+        # sloppy line-search constants: the accepted (lowest) trial is then often not the last one,
+        # which is the path on which fun/jac must be re-evaluated at the accepted point
+        cfg["ftol_linesearch"] = float(choice(rng, [1e-4, 1e-3, 0.3]))
+        cfg["gtol_linesearch"] = float(choice(rng, [0.1, 0.4, 0.9]))
+        cfg["xtol_linesearch"] = float(choice(rng, [1e-10, 0.1, 0.5]))
+        if spec["family"] in ("qp", "softplus", "badscale"):
+            spec["family"] = str(choice(rng, ["cosine", "rastrigin", "styblinski", "rosen"]))
+            if spec["family"] == "rosen":
+                spec["n"] = max(2, min(spec["n"], 8))
     nseg = int(choice(rng, [1, 1, 2, 2, 3, 4, 5]))
     stops = sorted(int(v) for v in rng.integers(0, cfg["maxiter"] + 1, size=nseg - 1)) if nseg > 1 else []
     plan = {
